@@ -58,13 +58,14 @@ static void yield_op(int op,int o1,int o2){ struct vthr *x=&T[me]; x->op=op; x->
   x->op=OP_NONE; }
 static void *tramp(void *a){ int id=(int)(long)a; me=id; sem_wait(&T[id].go); if(logf) fprintf(logf,"{\"e\":\"step\",\"t\":%d,\"op\":%d}\n",me,OP_START); T[id].op=OP_NONE;
   T[id].ret=T[id].fn(T[id].arg);
+  if(logf) fprintf(logf,"{\"e\":\"exit\",\"t\":%d}\n",me);
   T[id].finished=1; T[id].op=OP_NONE; int nx=pick(); if(nx>=0) sem_post(&T[nx].go); else { int all=1; for(int t=0;t<nT;t++) if(T[t].used&&!T[t].finished) all=0; if(!all){ vs_deadlock=1; if(vs_mode==3){ fprintf(stderr,"VS: lock order of the model cannot be followed at position %d of %d (thread exit)\n",lo_pos,lo_n); _exit(4);} fprintf(stderr,"VS: DEADLOCK at thread exit\n"); if(vs_on_deadlock) vs_on_deadlock(); _exit(3);} }
   return NULL; }
 void vs_config(int mode,int post,int npre,long horizon,unsigned long seed){ vs_mode=mode; vs_post=post; vs_npre=npre>8?8:npre; unsigned long x=seed*6364136223846793005UL+1442695040888963407UL; for(int i=0;i<vs_npre;i++){ x^=x<<13; x^=x>>7; x^=x<<17; vs_pre[i]=(long)(x%(unsigned long)(horizon>0?horizon:1)); } }
 void vs_decisions(int n,const long *st,const int *ch,int policy){ vs_mode=2; vs_post=1; n_dec=n>8?8:n; for(int i=0;i<n_dec;i++){ dec_step[i]=st[i]; dec_choice[i]=ch[i]; } vs_policy=policy; vs_decision_invalid=0; }
 void vs_lockorder(int n,const int *t,const int *m){ vs_mode=3; vs_post=1; lo_n=n>4096?4096:n; lo_pos=0; for(int i=0;i<lo_n;i++){ lo_t[i]=t[i]; lo_m[i]=m[i]; } }
 int vs_lockorder_left(void){ return lo_n-lo_pos; }
-void vs_begin(unsigned long seed,int spurious_pct){ memset(T,0,sizeof T); nT=1; nM=nC=0; memset(waiting,0,sizeof waiting); T[0].used=1; sem_init(&T[0].go,0,0); me=0; rng=seed*2654435761UL+88172645463325252UL; sp_pct=spurious_pct; steps=0; vs_deadlock=0; vs_max_threads_seen=0; const char *lp=getenv("VS_LOG"); logf= lp? fopen(lp,"w"):NULL; }
+void vs_begin(unsigned long seed,int spurious_pct){ memset(T,0,sizeof T); nT=1; nM=nC=0; memset(waiting,0,sizeof waiting); T[0].used=1; sem_init(&T[0].go,0,0); me=0; rng=seed*2654435761UL+88172645463325252UL; sp_pct=spurious_pct; steps=0; vs_deadlock=0; vs_max_threads_seen=0; const char *lp=getenv("VS_LOG"); logf= lp? fopen(lp,"a"):NULL; if(logf) fprintf(logf,"{\"e\":\"begin\"}\n"); }
 int vs_end(void){ if(logf){fclose(logf);logf=NULL;} for(int t=1;t<nT;t++) assert(T[t].finished); return (int)steps; }
 int vs_mutex_init(pthread_mutex_t *m,const pthread_mutexattr_t *a){ (void)a; struct vmx *x=(struct vmx*)m; x->magic=0x564d5831; x->id=nM; assert(nM<MAXO); owner[nM++]=-1; return 0; }
 int vs_mutex_destroy(pthread_mutex_t *m){ struct vmx *x=(struct vmx*)m; assert(x->magic==0x564d5831); assert(owner[x->id]<0); x->magic=0; return 0; }
@@ -78,8 +79,8 @@ int vs_cond_wait(pthread_cond_t *c,pthread_mutex_t *m){ struct vcv *x=(struct vc
   yield_op(OP_CW_REL,x->id,y->id); assert(owner[y->id]==me); owner[y->id]=-1; waiting[x->id][me]=1;
   yield_op(OP_CW_ACQ,x->id,y->id); assert(owner[y->id]<0); owner[y->id]=me; if(vs_mode==3&&lo_pos<lo_n) lo_pos++; return 0; }
 int vs_cond_signal(pthread_cond_t *c){ struct vcv *x=(struct vcv*)c; assert(x->magic==0x56435631); yield_op(OP_SIGNAL,x->id,0);
-  int w[MAXT],n=0; for(int t=0;t<nT;t++) if(waiting[x->id][t]) w[n++]=t; if(n){ int t=(vs_mode==2)? w[vs_policy==1? n-1:0] : w[rnd()%n]; waiting[x->id][t]=0; } return 0; }
-int vs_cond_broadcast(pthread_cond_t *c){ struct vcv *x=(struct vcv*)c; assert(x->magic==0x56435631); yield_op(OP_SIGNAL,x->id,0); for(int t=0;t<nT;t++) waiting[x->id][t]=0; return 0; }
+  int w[MAXT],n=0; for(int t=0;t<nT;t++) if(waiting[x->id][t]) w[n++]=t; if(n){ int t=(vs_mode==2)? w[vs_policy==1? n-1:0] : w[rnd()%n]; waiting[x->id][t]=0; if(logf) fprintf(logf,"{\"e\":\"wake\",\"c\":%d,\"t\":%d}\n",x->id,t); } return 0; }
+int vs_cond_broadcast(pthread_cond_t *c){ struct vcv *x=(struct vcv*)c; assert(x->magic==0x56435631); yield_op(OP_SIGNAL,x->id,0); for(int t=0;t<nT;t++) if(waiting[x->id][t]){ waiting[x->id][t]=0; if(logf) fprintf(logf,"{\"e\":\"wake\",\"c\":%d,\"t\":%d}\n",x->id,t); } return 0; }
 int vs_mutex_trylock(pthread_mutex_t *m){ struct vmx *x=(struct vmx*)m; assert(x->magic==0x564d5831); yield_op(OP_MISC,x->id,0); if(owner[x->id]>=0) return 16 /* EBUSY */; owner[x->id]=me; return 0; }
 int vs_self(void){ return me; }
 int vs_create(pthread_t *pt,const pthread_attr_t *a,void *(*fn)(void*),void *arg){ (void)a; yield_op(OP_CREATE,0,0); assert(nT<MAXT); int id=nT++; struct vthr *x=&T[id]; memset(x,0,sizeof *x); x->used=1; x->fn=fn; x->arg=arg; x->op=OP_START; sem_init(&x->go,0,0);
